@@ -133,7 +133,7 @@ def twin_oracle(ctx):
         ctor, args = mk(kind)
         used, fresh = ctor(), None
         Lv = used.frame_length
-        hist_desc, refused = [], None
+        hist_desc, refused, unrunnable = [], None, False
         for u in range(rng.randint(1, 4)):
             N = rng.choice([0, 1, used.frame_shift // 2, Lv // 2, Lv // 2 + 1, Lv, rng.randint(0, 4 * Lv), rng.randint(0, 40)])
             # earlier utterances may have another floating dtype than the next one (a dtype must not stick to the instance)
@@ -149,6 +149,13 @@ def twin_oracle(ctx):
             # script ends with finalize, after which `started` is false
             wrong = [i for i, (o, r) in enumerate(zip(sc, ho))
                      if r[0] == "ValueError" and (o[0] in ("chunk", "finalize") or len(sc) == 1)]
+            if wrong and [r[0] for r in drive(ctor(), sc, sig)] == [r[0] for r in ho]:
+                # a FRESH instance refuses the same call of the same script on the same signal: the library cannot run this
+                # configuration on this signal at all (a short-integration computer whose frame shift is not shorter than its
+                # filters' one-sided support is outside its working domain) - that says nothing about histories
+                ctx.count("twin:configuration-not-runnable")
+                unrunnable = True
+                break
             if wrong or used.started:
                 i = wrong[0] if wrong else len(sc) - 1
                 refused = dict(kind=kind, args={k: str(v) for k, v in args.items()}, history=hist_desc[:-1],
@@ -157,6 +164,8 @@ def twin_oracle(ctx):
                                else "started is still True after the last finalize",
                                fresh="a fresh instance accepts this call and is idle after finalize")
                 break
+        if unrunnable:
+            continue
         if refused is not None:
             # reported with the history that led to it; this instance is in no state to go on
             ctx.count("twin:" + kind)
